@@ -987,8 +987,9 @@ func prepareGcs(c *vrun.Ctx) (*gcsPart, error) {
 }
 
 // runGcsParts runs the parts that need TraceGcs.tla (the GCS part itself and
-// the BIP158 basic-filter part) with ONE evaluation of the trace module.
-func runGcsParts(c *vrun.Ctx, doGcs, doBasic bool) error {
+// the BIP158 basic-filter parts: direct calls and the index of a running node)
+// with ONE evaluation of the trace module.
+func runGcsParts(c *vrun.Ctx, doGcs, doBasic, doIndex bool) error {
 	var parts []*gcsPart
 	var mu sync.Mutex
 	var fe firstErr
@@ -996,7 +997,7 @@ func runGcsParts(c *vrun.Ctx, doGcs, doBasic bool) error {
 	for _, pr := range []struct {
 		on bool
 		f  func(*vrun.Ctx) (*gcsPart, error)
-	}{{doGcs, prepareGcs}, {doBasic, prepareBasic}} {
+	}{{doGcs, prepareGcs}, {doBasic, prepareBasic}, {doIndex, prepareChainIdx}} {
 		if !pr.on {
 			continue
 		}
